@@ -57,10 +57,11 @@ type Src struct {
 	Name  string `json:"name"`
 	Act   string `json:"act"`
 	NPerm int    `json:"nperm"`
+	Prec  int    `json:"prec"` // Precedence as supplied by the client (Normalize must recompute it)
 }
 
 type Op struct {
-	Kind string `json:"kind"` // lset | entry | upsert
+	Kind string `json:"kind"` // lset | entry | upsert | sdest (service-defaults with a Destination block for Name)
 	Ixn  *Ixn   `json:"ixn,omitempty"`
 	Name string `json:"name,omitempty"` // entry name / upsert destination
 	Srcs []Src  `json:"srcs,omitempty"` // entry: all sources; upsert: exactly one
@@ -85,6 +86,7 @@ type Case struct {
 	All  []Ixn    `json:"all"`
 	MSrc [][]int  `json:"msrc"`
 	MDst [][]int  `json:"mdst"`
+	MSrD [][]int  `json:"msrd"` // IntentionMatchOne by source with target type "destination"
 	R1   []int    `json:"r1"`
 	R2   []int    `json:"r2"`
 
@@ -93,7 +95,7 @@ type Case struct {
 	ToCoq  bool   `json:"to_coq"`
 
 	// not serialised: full lists for the cross-order comparison
-	msrcFull, mdstFull [][]Ixn
+	msrcFull, mdstFull, msrdFull [][]Ixn
 	r1all, r2all       [4][]int
 }
 
@@ -201,12 +203,12 @@ func sumCode(d structs.IntentionDecisionSummary) int {
 func toIntention(x *Ixn) *structs.Intention {
 	return &structs.Intention{ID: x.ID, SourcePeer: x.Peer, SourceNS: x.SNS, SourceName: x.SName,
 		DestinationNS: x.DNS, DestinationName: x.DName, Action: structs.IntentionAction(x.Act),
-		Permissions: mkPerms(x.NPerm), SourceType: structs.IntentionSourceConsul}
+		Permissions: mkPerms(x.NPerm), SourceType: structs.IntentionSourceConsul, Precedence: x.Prec}
 }
 
 func toSource(s Src) *structs.SourceIntention {
 	return &structs.SourceIntention{Name: s.Name, Peer: s.Peer, Action: structs.IntentionAction(s.Act),
-		Permissions: mkPerms(s.NPerm)}
+		Permissions: mkPerms(s.NPerm), Precedence: s.Prec}
 }
 
 func newStore(legacy bool) (*state.Store, error) {
@@ -242,6 +244,16 @@ func applyOp(s *state.Store, idx uint64, o *Op) error {
 		for _, x := range o.Srcs {
 			e.Sources = append(e.Sources, toSource(x))
 		}
+		if err := e.Normalize(); err != nil {
+			return err
+		}
+		if err := e.Validate(); err != nil {
+			return err
+		}
+		return s.EnsureConfigEntry(idx, e)
+	case "sdest":
+		e := &structs.ServiceConfigEntry{Kind: structs.ServiceDefaults, Name: o.Name,
+			Destination: &structs.DestinationConfig{Addresses: []string{"ext.example.com"}, Port: 443}}
 		if err := e.Normalize(); err != nil {
 			return err
 		}
@@ -329,10 +341,19 @@ func execute(c *Case) string {
 	nq := len(c.Qs)
 	srcLists := make([]structs.SimplifiedIntentions, nq)
 	dstLists := make([]structs.SimplifiedIntentions, nq)
-	c.MSrc, c.MDst = make([][]int, nq), make([][]int, nq)
-	c.msrcFull, c.mdstFull = make([][]Ixn, nq), make([][]Ixn, nq)
+	c.MSrc, c.MDst, c.MSrD = make([][]int, nq), make([][]int, nq), make([][]int, nq)
+	c.msrcFull, c.mdstFull, c.msrdFull = make([][]Ixn, nq), make([][]Ixn, nq), make([][]Ixn, nq)
 	for k, q := range c.Qs {
 		entry := structs.IntentionMatchEntry{Namespace: q[0], Name: q[1]}
+		_, oned, err := s.IntentionMatchOne(nil, entry, structs.IntentionMatchSource, structs.IntentionTargetDestination)
+		if err != nil {
+			return "IntentionMatchOne(destination target): " + err.Error()
+		}
+		pd, bd := projectAll(structs.Intentions(oned))
+		if bd != "" {
+			problem = bd
+		}
+		c.MSrD[k], c.msrdFull[k] = index(pd), pd
 		for _, mt := range []structs.IntentionMatchType{structs.IntentionMatchSource, structs.IntentionMatchDestination} {
 			_, ls, err := s.IntentionMatch(nil, &structs.IntentionQueryMatch{Type: mt, Entries: []structs.IntentionMatchEntry{entry}})
 			if err != nil || len(ls) != 1 {
